@@ -163,6 +163,17 @@ def sp_allocated(eng, node, st):
     return vbool(z3.And(v.t >= 1, v.t < st.heap.alloc))
 
 
+def sp_in_set(eng, node, st):
+    """in_set(x, S): membership in a set value or a ghost set"""
+    x = to_int(eng.ev(node.args[0], st))
+    sv = eng.ev(node.args[1], st)
+    if sv.k == ('ghostset',):
+        return vbool(z3.Select(sv.t, x))
+    if isinstance(sv.k, tuple) and sv.k[0] == 'set':
+        return vbool(z3.Select(st.heap.rd('set:', sv.t), x))
+    raise ContractError("in_set() on %r" % (sv.k,))
+
+
 def sp_same(eng, node, st):
     a, b = eng.ev(node.args[0], st), eng.ev(node.args[1], st)
     if a.t is None or b.t is None:
@@ -312,6 +323,12 @@ def sp_norm(eng, node, st):
     return vreal(models._norm_uf(eng, 1)(arr, n))
 
 
+def sp_norm2d(eng, node, st):
+    from . import models
+    v = eng.ev(node.args[0], st)
+    return models.np_norm(eng, st, [v], {}, node)
+
+
 def sp_sqrt(eng, node, st):
     from . import models
     return models.np_sqrt(eng, st, [eng.ev(node.args[0], st)], {}, node)
@@ -380,8 +397,8 @@ def sp_cnt(eng, node, st):
     return vint(models.cnt(eng, st, a)(a, k, p))
 
 
-SPEC_BUILTINS = dict(cnt=sp_cnt, psum=sp_psum, rsum=sp_rsum, norm=sp_norm, sqrt=sp_sqrt, matmul=sp_matmul, copyof=sp_copyof, rows_of=sp_rows_of, cov=sp_cov, colmean=sp_colmean, transpose=sp_transpose, eigh_of=sp_eigh_of, forall=sp_forall, exists=sp_exists, implies=sp_implies, ite=sp_ite, old=sp_old,
-                     fresh=sp_fresh, allocated=sp_allocated, same=sp_same, unchanged=sp_unchanged, isnone=sp_isnone, real=sp_real,
+SPEC_BUILTINS = dict(cnt=sp_cnt, psum=sp_psum, rsum=sp_rsum, norm=sp_norm, norm2d=sp_norm2d, sqrt=sp_sqrt, matmul=sp_matmul, copyof=sp_copyof, rows_of=sp_rows_of, cov=sp_cov, colmean=sp_colmean, transpose=sp_transpose, eigh_of=sp_eigh_of, forall=sp_forall, exists=sp_exists, implies=sp_implies, ite=sp_ite, old=sp_old,
+                     fresh=sp_fresh, allocated=sp_allocated, in_set=sp_in_set, same=sp_same, unchanged=sp_unchanged, isnone=sp_isnone, real=sp_real,
                      eqcontent=sp_eqcontent, let=sp_let, alloc_now=sp_alloc)
 
 
@@ -443,6 +460,9 @@ def ev_call(eng, node, st):
     args = []
     if isinstance(f, ast.Name) and f.id == 'isinstance' and 'isinstance' not in st.env:
         return eng.models['builtins.isinstance'](eng, st, [eng.ev(node.args[0], st)], {}, node)
+    tgt0 = eng.resolve_callable(f, st)
+    if tgt0 == ('model', 'random.sample'):
+        return eng.models['random.sample'](eng, st, [None] + [eng.ev(a, st) for a in node.args[1:]], {}, node)
     for a in node.args:
         if isinstance(a, ast.Starred):
             v = eng.ev(a.value, st)
@@ -671,6 +691,9 @@ def havoc_target(eng, st, tgt):
                 st.heap.wr(key, v.t, z3.Const(fresh_name('hf_' + f), sort_of(fk)))
         elif k[0] == 'set':
             st.heap.wr('set:', v.t, z3.Const(fresh_name('hset'), z3.ArraySort(I, B)))
+            n = z3.Int(fresh_name('hcard'))
+            st.assume(n >= 0)
+            st.heap.wr('len', v.t, n)
         elif k[0] == 'ddict':
             st.heap.wr('el:ref', v.t, z3.Const(fresh_name('hdd'), z3.ArraySort(I, I)))
         elif k[0] == 'pdict':
@@ -778,7 +801,11 @@ def apply_contract(eng, c, mod, fdef, args, kwargs, st, node):
         eng.oblige(st, "pre@call:%s:%s@L%d" % (short, label, line), 'pre@call', t, node)
         st.assume(t)
     for exc, cond in c.raises.items():
-        t = eval_bool(eng, cond, env, st)
+        if cond is None:
+            # unspecified raising condition: an arbitrary (uninterpreted) condition of the pre-state
+            t = z3.Bool(fresh_name('may_raise_' + exc))
+        else:
+            t = eval_bool(eng, cond, env, st)
         if exc in eng.frame.exc_ok or any(exc in h for h in eng.frame.try_handlers):
             st.pending_raises.append((t, exc, len(st.pc)))
         else:
